@@ -65,6 +65,8 @@ type replayGen struct {
 	postMode bool // identifiers' heap reads refer to the post state unless under old()
 	scope    *types.Scope // package scope: package-level variables and constants (ground checks)
 	locals   map[string]string // bound variables of expanded ranged quantifiers -> literal
+	macro    map[string]goExpr // parameters of a 'define' being expanded
+	defs     map[string]*Def
 }
 
 func wrapperKind(t types.Type) string {
@@ -132,6 +134,9 @@ func (g *replayGen) compile(c CExpr) goExpr {
 		if c.Name == "nil" {
 			return goExpr{"nil", "nilptr"}
 		}
+		if m, ok := g.macro[c.Name]; ok {
+			return m
+		}
 		if t, ok := g.params[c.Name]; ok {
 			k := wrapperKind(t)
 			switch k {
@@ -169,6 +174,9 @@ func (g *replayGen) compile(c CExpr) goExpr {
 		}
 		if lit, ok := g.locals[c.Name]; ok {
 			return goExpr{fmt.Sprintf("zzbi(%q)", lit), "int"}
+		}
+		if m, ok := g.macro[c.Name]; ok {
+			return m
 		}
 		if g.scope != nil {
 			if obj := g.scope.Lookup(c.Name); obj != nil {
@@ -375,6 +383,23 @@ func (g *replayGen) compile(c CExpr) goExpr {
 		case "wrapu64":
 			return goExpr{"zzwrapu64(" + g.compile(c.Args[0]).s + ")", "int"}
 		}
+		if d, ok := g.defs[c.Fn]; ok && len(d.Params) == len(c.Args) {
+			vals := make([]goExpr, len(c.Args))
+			for i := range c.Args {
+				vals[i] = g.compile(c.Args[i])
+			}
+			saved := g.macro
+			g.macro = map[string]goExpr{}
+			for k, v := range saved {
+				g.macro[k] = v
+			}
+			for i, p := range d.Params {
+				g.macro[p] = vals[i]
+			}
+			r := g.compile(d.Body)
+			g.macro = saved
+			return r
+		}
 		return g.fail("spec function %s not supported in replay", c.Fn)
 	}
 	return g.fail("expression not supported in replay: %s", cexprString(c))
@@ -459,7 +484,7 @@ func (e *Engine) replayOnRealCode(r *OblResult, model map[string]string, scratch
 		return false, "", "closures are not replayed"
 	}
 	sig := fn.Signature
-	g := &replayGen{params: map[string]types.Type{}, results: map[string]types.Type{}}
+	g := &replayGen{params: map[string]types.Type{}, results: map[string]types.Type{}, defs: e.cs.Defs}
 	type par struct {
 		name string
 		t    types.Type
@@ -736,7 +761,7 @@ func (e *Engine) GroundCheck(pkgPath string, scratch string) (ok []string, faile
 	fmt.Fprintf(&b, "%s", replayHeader(pkg.Types.Name()))
 	fmt.Fprintf(&b, "func TestZZGovcGround(t *testing.T) {\n")
 	for _, sp := range specs {
-		g := &replayGen{params: map[string]types.Type{}, results: map[string]types.Type{}, scope: pkg.Types.Scope(), postMode: true}
+		g := &replayGen{params: map[string]types.Type{}, results: map[string]types.Type{}, scope: pkg.Types.Scope(), postMode: true, defs: e.cs.Defs}
 		ex := g.compile(sp.Inv.E)
 		if g.err != "" {
 			fmt.Fprintf(&b, "\tfmt.Println(\"ZZGROUND unsupported %s: %s\")\n", sp.Name, strings.ReplaceAll(g.err, "\"", "'"))
